@@ -194,7 +194,8 @@ func (h *Hub) Run() {
 				delete(h.connections, conn)
 				h.connMu.Unlock()
 
-				close(conn.send)
+				conn.closeSend()
+				conn.markClosed()
 				h.roomManager.RemoveConnectionFromAllRooms(conn)
 				h.metrics.DecrementConnections()
 				h.metrics.UnregisterConnection(conn.ID)
@@ -203,6 +204,7 @@ func (h *Hub) Run() {
 				if h.config.EnableReconnection && h.config.PreserveClientState {
 					h.saveConnectionState(conn)
 				}
+				conn.leaveAllRooms()
 
 				log.Printf("[WS] Connection unregistered: %s (total: %d)", conn.ID, len(h.connections))
 
@@ -241,12 +243,12 @@ func (h *Hub) Run() {
 		case message := <-h.broadcast:
 			h.connMu.Lock()
 			for conn := range h.connections {
-				select {
-				case conn.send <- message:
-				default:
-					close(conn.send)
+				if !conn.trySend(message) {
+					conn.closeSend()
 					delete(h.connections, conn)
+					conn.markClosed()
 					h.roomManager.RemoveConnectionFromAllRooms(conn)
+					conn.leaveAllRooms()
 				}
 			}
 			h.connMu.Unlock()
